@@ -467,14 +467,33 @@ Theorem C14_boundary_backwards_then_past_accepted : forall cfg n endt st st' l o
 Proof. exact backwards_then_past_accepted. Qed.
 Print Assumptions C14_boundary_backwards_then_past_accepted.
 
-(* a user callable that raises interrupts run_until after the event was popped and its clock set: the simulator is left
-   in the state of a run cut short (the model's out-of-fuel result, up to the rest of the raising callable's own body);
-   that state satisfies the invariants and resuming with the same horizon completes exactly the run *)
+(* a run cut short by fuel alone (no exception) can be resumed: with the same horizon it completes exactly the run *)
 Theorem C14_resume_after_interruption : forall cfg n1 endt st st1 l1 n2 st2 l2 ok,
-  run_loop cfg n1 endt st = (st1, l1, false) -> run_loop cfg n2 endt st1 = (st2, l2, ok) ->
+  run_loop cfg n1 endt st = (st1, l1, false) -> has_raise l1 = false -> run_loop cfg n2 endt st1 = (st2, l2, ok) ->
   run_loop cfg (n1 + n2) endt st = (st2, l1 ++ l2, ok).
 Proof. exact run_loop_resume. Qed.
 Print Assumptions C14_resume_after_interruption.
+
+(* user callables that raise are part of the model the correspondence runs (act ARaise): the statements of a callable
+   after the raise never run ... *)
+Theorem C14_raise_stops_body : forall cfg st pre rest, do_acts cfg st (pre ++ ARaise :: rest) =
+  (let '(st1, l1) := do_acts cfg st pre in if has_raise l1 then (st1, l1) else (st1, l1 ++ [LRaise])).
+Proof. exact raise_stops_body. Qed.
+Print Assumptions C14_raise_stops_body.
+
+(* ... the exception escapes from run_until (never reported as completed), leaving a legal state: event-list invariant,
+   clock between the start and the horizon (at the time of the raising event), step invariant under ABMSimulator ... *)
+Theorem C14_raise_interrupts_run : forall cfg fuel endt st st1 l1 ok, inv st -> s_time st <= endt ->
+  run_loop cfg fuel endt st = (st1, l1, ok) -> has_raise l1 = true ->
+  ok = false /\ inv st1 /\ s_time st <= s_time st1 <= endt /\ (c_abm cfg = true -> step_inv st -> step_inv st1).
+Proof. exact raise_interrupts_run. Qed.
+Print Assumptions C14_raise_interrupts_run.
+
+(* ... and a run that completed did not see an exception *)
+Theorem C14_completed_run_has_no_raise : forall cfg fuel endt st st1 l1,
+  run_loop cfg fuel endt st = (st1, l1, true) -> has_raise l1 = false.
+Proof. exact no_raise_completes_or_fuel. Qed.
+Print Assumptions C14_completed_run_has_no_raise.
 
 Theorem C14_interrupted_state_ok : forall cfg n endt st st1 l1, inv st -> s_time st <= endt ->
   run_loop cfg n endt st = (st1, l1, false) ->
@@ -562,3 +581,13 @@ Example C14_boundary_example :
   inv st /\ 8 < s_time st /\ s_time (fst (fst (run_loop ex14_cfg 1 8 st))) = 8 /\
   snd (do_sched ex14_cfg (fst (fst (run_loop ex14_cfg 1 8 st))) KAbs 12 PDefault 1 0 []) = R_OK.
 Proof. cbv zeta. split; [apply inv_final|]. repeat split; vm_compute; reflexivity. Qed.
+
+(* a user callable that raises: event 1 (time 1) schedules event 2 and raises before cancelling event 3; run_until(3)
+   propagates the exception with the clock at 1; the next run_until(3) executes 2 and 3 *)
+Example C14_raise_example :
+  let ops := [OSched KAbs 8 PDefault 1 0 [ASched KRel 8 PDefault 2 0 []; ARaise; ACancel 3];
+              OSched KAbs 24 PDefault 3 0 []; ORunUntil 24; ORunUntil 24] in
+  map (fun o => firstn 3 o) (run_ops ex14_cfg 50 (init ex14_cfg) ops) = [[0; 0; 0]; [0; 0; 0]; [-1; E_USER; 8]; [0; 24; 0]] /\
+  map e_tag (execs (snd (run_state ex14_cfg 50 (init ex14_cfg) ops))) = [1; 2; 3] /\
+  has_raise (snd (run_state ex14_cfg 50 (init ex14_cfg) ops)) = true.
+Proof. cbv zeta. repeat split; vm_compute; reflexivity. Qed.
